@@ -5,7 +5,7 @@ from simv.model.schema import (
 )
 from simv.gen.values import gen_literal
 
-FIELD_NAMES = ["a", "b", "c", "d", "e", "f", "g", "h", "id", "name", "t0", "x", "y", "_x", "e1"]
+FIELD_NAMES = ["a", "b", "c", "d", "e", "f", "g", "h", "id", "name", "t0", "x", "y", "_x", "e1", "repeatable"]  # repeatable: a keyword of later spec editions, an ordinary name here
 ARG_NAMES = ["p", "q", "r", "id", "a", "e2"]  # e1 / e2: names shaped like an exponent (they may follow a number)
 ENUM_VALUE_NAMES = ["A", "B", "C", "D", "RED", "a", "True", "None"]  # legal names that spell Python constants
 
